@@ -95,8 +95,9 @@ OpsBoard(ops, k, b) ==
   ELSE OpsBoard(ops, k + 1, b)
 
 \* one call
-JudgeCall(c, dev, b, focus) ==
+JudgeCall(c, dev0, b, focus) ==
   LET cl == CallOf(c)
+      dev == c.dev                 \* the device on the bus during this call (the environment may have swapped it)
       ops == Sq(c.ops)
       F(p) == focus = p
       nw == Cardinality({k \in 1..Len(ops) : ops[k].k = "w"})
